@@ -4609,6 +4609,8 @@ class UDFFileIdentifierDescriptor:
                 self.fi = bytename.encode('utf-16_be')
                 self.encoding = 'utf-16_be'
             self.len_fi = len(self.fi) + 1
+            if self.len_fi > 255:
+                raise pycdlibexception.PyCdlibInvalidInput('Name is too long to fit in a UDF File Identifier')
 
         self.parent = parent
 
